@@ -41,6 +41,7 @@ class PipeLoop(vloop.VirtualLoop):
         self.hold_devices = hold_devices
         self.device_imports = 0  # device-class imports requested so far
         self.frame_imports = 0
+        self.device_imports_ok = 0  # … of which completed without raising
 
     def run_in_executor(self, executor, func, *args):
         is_device = any(isinstance(a, str) and ".devices" in a for a in args)
@@ -49,6 +50,13 @@ class PipeLoop(vloop.VirtualLoop):
         else:
             self.frame_imports += 1
         self.hold = bool(is_device and self.hold_devices)
+        if is_device:
+            inner = func
+
+            def func(*a):  # noqa: F811  count the device-class imports that succeed (each is followed by an instantiation)
+                r = inner(*a)
+                self.device_imports_ok += 1
+                return r
         try:
             return super().run_in_executor(executor, func, *args)
         finally:
